@@ -100,6 +100,21 @@ pub struct SketchState {
 //
 
 /// Callback invoked at the switch points of `sync::Cache` by threads that registered one.
+/// Scaled maintenance queues: `(flush point, read queue slots, write queue slots)` used by the
+/// caches built, and the housekeeping decisions taken, while the setting is in force (process
+/// wide; `None` = the library's constants). It lets small multi-threaded programs reach a full
+/// queue, so that schedules explored on a model with small queues can be run on the real code.
+static SCALED_QUEUES: std::sync::Mutex<Option<(usize, usize, usize)>> = std::sync::Mutex::new(None);
+
+pub fn set_scaled_queues(q: Option<(usize, usize, usize)>) {
+    *SCALED_QUEUES.lock().unwrap_or_else(|e| e.into_inner()) = q;
+}
+
+#[inline]
+pub(crate) fn scaled_queues() -> Option<(usize, usize, usize)> {
+    *SCALED_QUEUES.lock().unwrap_or_else(|e| e.into_inner())
+}
+
 pub type PointHandler = Arc<dyn Fn(&'static str) + Send + Sync + 'static>;
 
 thread_local! {
